@@ -670,8 +670,22 @@ impl G {
                 self.own_docs = Some((0..5).map(|_| obj(vec![("f".into(), s_node(*self.r.pick(&hay)))])).collect());
                 // (as ONE list the big regexes are rejected at load - a set that cannot be built is an error -
                 // so they only come as separate identifiers)
+                if !big && self.r.chance(1, 4) {
+                    // a list and its case-flag twin (the same regex TEXTS) as two identifiers, each or-ed with a
+                    // further predicate so that shake rebuilds both sets in one optimise() call
+                    let twin: Vec<J> = vs.iter().map(|p| { let mut q = p.clone(); q["ic"] = json!(!ic); q }).collect();
+                    let extra = json!({"t":"pat","k":"exact","ic":false,"a":cps("zz")});
+                    let mut v1 = vs.clone(); v1.push(extra.clone());
+                    let mut v2 = twin; v2.push(extra);
+                    let (x, y) = if self.r.chance(1, 2) { ("A", "B") } else { ("B", "A") };
+                    return json!({"cond":{"t":"or","l":{"t":"id","n":cps(x)},"r":{"t":"id","n":cps(y)}},
+                                  "ids":[[cps("A"),{"t":"map","es":[ent("none", "f", json!({"t":"list","vs":v1}))]}],
+                                         [cps("B"),{"t":"map","es":[ent("none", "f", json!({"t":"list","vs":v2}))]}]]});
+                }
                 if !big && self.r.chance(1, 2) {
-                    json!({"cond":{"t":"id","n":cps("A")},"ids":[[cps("A"),{"t":"map","es":[ent("none", "f", json!({"t":"list","vs":vs}))]}]]})
+                    // plain list, or under a quantifier (members that become equal once `.*` is stripped still count apiece)
+                    let (m, cnt) = match self.r.below(4) { 0 => ("of", 2u64), 1 => ("all", 0), _ => ("none", 0) };
+                    json!({"cond":{"t":"id","n":cps("A")},"ids":[[cps("A"),{"t":"map","es":[{"m":m,"c":cnt,"f":cps("f"),"v":{"t":"list","vs":vs}}]}]]})
                 } else {
                     // the same regexes as lone predicates under or-ed identifiers (shake merges them)
                     let ids: Vec<J> = vs.iter().enumerate().map(|(i, p)| json!([cps(IDENTS[i]), {"t":"map","es":[ent("none", "f", p.clone())]}])).collect();
@@ -1476,6 +1490,8 @@ const COND_PIECES: &[&str] = &[
     // names that differ from a defined identifier only in letter case: they are NOT defined
     "a", "b", "Android", "ORDER", "all(a)", "of(b, 1)", "Not_admin",
     "OR", "Not", "AND", "All", "OR", "AND",
+    // wrappers with nothing inside, brackets in the wrong order
+    "int()", "str()", "flt()", "not()", "all()", "of()", "of(,1)", "of(A,)", "string()", "a]b[0]", "args][", "]x[", "f[0]]", "[[0]", "a[0][1]", "a[+1]",
     "-", "-1", ".", "..", "1.2.3", "1.", ".5", "99999999999999999999", "9223372036854775807", "#x", "A[0]", "A.B",
     "_", "all", "of", "int", "all(A)", "of(B, 1)", "of(B,0)", "Z", "all(Z)", "of(Z, 1)", "not(Z)", "int(Z)", "int(f)", "flt(g)", "str(f)", "int(f) == 1", "flt(g) < 1.5",
     "str(f) == str(g)", "int(f) >= int(g)",
@@ -1660,9 +1676,10 @@ fn fuzz_case(g: &mut G, rule_files: &[String]) -> J {
                 3 => { let q = pat_soup(g); json!({"t":"A","vs":[s_node(&p), s_node(&q), s_node(&p), s_node(&q)]}) }
                 _ => obj(vec![("g".into(), s_node(&p))]),
             };
-            let key = match g.r.below(4) {
+            let key = match g.r.below(5) {
                 0 => pat_soup(g),
                 1 => cond_soup(g, true),
+                2 => (*g.r.pick(&["a]b[0]", "args][", "]x[", "f[0]]", "[[0]", "a[0][1]", "a[+1]", "a.b][.c[1]", "int()", "not()", "all()", "str()", "of(,1)", "int(a]b[0])", "f[", "f]", "f[]", "f[-1]", "f[99999999999999999999]"])).to_string(),
                 _ => "f".to_string(),
             };
             let det = obj(vec![("A".into(), obj(vec![(key, inner)])), ("condition".into(), s_node("A"))]);
